@@ -23,6 +23,7 @@ type GenParams struct {
 	SyncNone   bool // allow Options.Sync = SyncNone (not for crash checks)
 	HugeTx     bool // rarely: one transaction with more page writes than the writer's batch buffer (1024)
 	Shapes     bool // bulk shapes: fragmented free lists, many overwrites, big regions
+	LimitOpen  bool // reopen with a max size option but without FlagUpdMaxSize (in-memory limit on unbounded files, ignored otherwise)
 }
 
 var pageSizes = []uint32{1024, 2048, 4096}
@@ -175,6 +176,9 @@ func GenItem(t *rapid.T, p GenParams) Item {
 	x := rapid.IntRange(0, 19).Draw(t, "item")
 	switch {
 	case x == 0 && p.Reopen:
+		if p.LimitOpen && rapid.IntRange(0, 2).Draw(t, "limitOpen") == 0 {
+			return Item{Reopen: &Reopen{Mode: 3, NewMax: uint(rapid.IntRange(16, 220).Draw(t, "limit"))}}
+		}
 		return Item{Reopen: &Reopen{Mode: rapid.IntRange(0, 1).Draw(t, "mode")}}
 	case x == 1 && p.Probe:
 		return Item{Probe: true}
